@@ -361,7 +361,7 @@ PROPS["C01"] = dict(
                  "(which of the types {A,B} exist in which scope, depth <= 2 quick / <= 3 thorough) with symbolic payloads. "
                  "All histories that stay within the bound agree with the model by induction over operations (not machine-checked)."),
     verus=[],
-    kani=[dict(files=["contracts/C01/c01.rs"], map_shim=True, map_shim_files=REG_FILES, harness_timeout="900s", timeout_s=2700)],
+    kani=[dict(files=["contracts/C01/c01.rs", "contracts/C01/c01_multi.rs"], map_shim=True, map_shim_files=REG_FILES, harness_timeout="900s", timeout_s=2700)],
     min_obligations={"quick": 38, "thorough": 38},
     trusted=["std HashMap/HashSet replaced by an association list with the same interface under cfg(kani) (shim/verif_map.rs)",
              "std::cell::RefCell, better_any downcasts: exercised, not specified"],
